@@ -13,6 +13,7 @@ def main():
     if "--props" in sys.argv:
         props = sys.argv[sys.argv.index("--props") + 1].split(",")
     only = sys.argv[sys.argv.index("--only") + 1].split(",") if "--only" in sys.argv else None
+    field = sys.argv[sys.argv.index("--field") + 1] if "--field" in sys.argv else "verif_checks"
     if not os.path.exists(WT):
         r = sh(f"git -C /repo worktree add --detach {WT} HEAD"); assert r.returncode == 0, r.stderr
     head = sh("git -C /repo rev-parse HEAD").stdout.strip()
@@ -22,7 +23,7 @@ def main():
         dst = os.path.join("/verif/seeded", name)
         os.makedirs(dst, exist_ok=True)
         for f in ("patch.diff", "demo.rs", "meta.json"):
-            if os.path.exists(os.path.join(md, f)): shutil.copy(os.path.join(md, f), dst)
+            if os.path.exists(os.path.join(md, f)) and os.path.abspath(md) != os.path.abspath(dst): shutil.copy(os.path.join(md, f), dst)
         sh(f"git -C {WT} checkout -q --detach {head} && git -C {WT} checkout -- . && git -C {WT} clean -fdq -e target")
         demo = open(os.path.join(dst, "demo.rs")).read()
         m = re.search(r"place at:\s*(\S+)", demo)
@@ -56,8 +57,9 @@ def main():
         meta = {}
         try: meta = json.load(open(os.path.join(dst, "meta.json")))
         except Exception: pass
-        meta["verif_confirmation"] = rec["confirmed"]
-        meta["verif_checks"] = rec["checks"]
+        if rec["confirmed"] is not None or "verif_confirmation" not in meta:
+            meta["verif_confirmation"] = rec["confirmed"]
+        meta[field] = rec["checks"]
         meta["ran_by_verif"] = ["git apply patch.diff in a scratch worktree", "cargo test --workspace --offline", "demo with / without the patch", "VERIF_REPO=<worktree> bin/check " + ",".join(props)]
         json.dump(meta, open(os.path.join(dst, "meta.json"), "w"), indent=1)
         print(name, rec["confirmed"], {p: c["result"] for p, c in rec["checks"].items()}, flush=True)
